@@ -62,6 +62,7 @@ func withNoFiles(f func())                     { withRlimit(syscall.RLIMIT_NOFIL
 func (w *world) faultAtomic(pre *snap, u update, res result, fault string, applied string) {
 	t := w.t
 	t.Checked("C17.fault_atomic")
+	t.Checked("C18.write_fault_atomic")
 	post := w.current()
 	what := fmt.Sprintf("%s -> %d under %s", u, res.status, fault)
 	if res.paniced {
@@ -70,6 +71,7 @@ func (w *world) faultAtomic(pre *snap, u update, res result, fault string, appli
 	if res.status < 200 || res.status >= 300 {
 		if post.hash != pre.hash {
 			t.Fail("C17", "fault_atomic", what+": the request was answered with an error but the stored files changed")
+			t.Fail("C18", "write_fault_atomic", what+": the request was answered with an error but the stored files changed")
 		}
 		return
 	}
@@ -77,6 +79,8 @@ func (w *world) faultAtomic(pre *snap, u update, res result, fault string, appli
 		var v map[string]any
 		if json.Unmarshal(b, &v) != nil {
 			t.Fail("C17", "fault_atomic", fmt.Sprintf("%s: answered %d but the file of group %s no longer parses (%d bytes, %d before)",
+				what, res.status, n, len(b), len(pre.groups[n])))
+			t.Fail("C18", "write_fault_atomic", fmt.Sprintf("%s: answered %d but the file of group %s no longer parses (%d bytes, %d before)",
 				what, res.status, n, len(b), len(pre.groups[n])))
 		}
 	}
@@ -86,6 +90,8 @@ func (w *world) faultAtomic(pre *snap, u update, res result, fault string, appli
 	// answered 2xx: the update is stored, as without the fault
 	if d := w.stateDigest(); applied != "" && d != applied {
 		t.Fail("C17", "fault_atomic", fmt.Sprintf("%s: answered %d but what is stored is not the result of the update: stored %s, expected %s",
+			what, res.status, d, applied))
+		t.Fail("C18", "write_fault_atomic", fmt.Sprintf("%s: answered %d but what is stored is not the result of the update: stored %s, expected %s",
 			what, res.status, d, applied))
 	}
 }
